@@ -862,6 +862,11 @@ class ServiceInfo(RecordUpdateListener):
 
                 await self.async_wait(min(next_, last) - now, zc.loop)
                 now = current_time_millis()
+                if not self._is_complete:
+                    # Records of one datagram are handed over before the cache holds
+                    # them: an address listed ahead of the SRV record that names its
+                    # host could not be used at that point, it can be now
+                    self._load_from_cache(zc, now)
         finally:
             zc.async_remove_listener(self)
 
